@@ -23,7 +23,7 @@ type c15 struct{ base }
 
 func init() {
 	core.Register(c15{base{id: "C15", race: true, level: "exploration", quickB: 16, thoroughB: 32,
-		rule: "groups of 2-24 client sessions (different users; typed result tables in text and binary via simple and extended protocol; extended histories over the same statement/portal names; binary COPY-in; failing queries; oversized messages; on half of the groups a server-registered custom type) are first served one at a time on a fresh server (solo reference) and then all at once on another fresh server, 3 (quick) / 5 (thorough) times with different yield-injection seeds at every transport Read/Write; every connection's per-step reply bytes and callback trace must equal its solo run (ParameterStatus compared as a multiset); the binary runs under the Go race detector and any report with a library frame is a violation. Non-trivial = group whose global event order interleaves at least two connections; distinct = hash of the global (connection, event-kind) order observed.",
+		rule: "groups of 2-24 client sessions (different users; typed result tables in text and binary via simple and extended protocol; extended histories over the same statement/portal names; binary COPY-in; failing queries; oversized messages; on half of the groups a server-registered custom type; short-lived CancelRequest / SSLRequest / truncated-startup / empty connections before and during the sessions) are first served one at a time on a fresh server (solo reference) and then all at once on another fresh server, 3 (quick) / 5 (thorough) times with different yield-injection seeds at every transport Read/Write; every connection's per-step reply bytes and callback trace must equal its solo run (ParameterStatus compared as a multiset); the binary runs under the Go race detector and any report with a library frame is a violation. Non-trivial = group whose global event order interleaves at least two connections; distinct = hash of the global (connection, event-kind) order observed.",
 		need:        []string{"groups", "concurrent_sessions", "steps_compared", "distinct_interleavings", "race_detector_active_batches", "custom_type_rows", "copy_sessions"},
 		assumptions: append([]string{"handler programs are deterministic functions of the query text, so a connection's solo transcript is the reference for its concurrent transcript"}, commonAssumptions...)}})
 }
@@ -250,6 +250,31 @@ func (ch c15) Run(c *core.Ctx) {
 			env := hs.Start(hs.Parse, c15opts(custom)...)
 			res := make([]c15result, n)
 			var wg sync.WaitGroup
+			// short-lived connections of other kinds before and while the sessions run:
+			// CancelRequest, SSLRequest + EOF, truncated startup, immediate EOF
+			odd := func(k int) {
+				conn := env.Dial(nil)
+				switch k % 4 {
+				case 0:
+					conn.Send(pg.CancelRequest(uint32(k), 7))
+				case 1:
+					conn.Send(pg.SSLRequest())
+				case 2:
+					conn.Send(pg.Startup([][2]string{{"user", "x"}})[:9])
+				}
+				conn.CloseWrite()
+				conn.WaitClosed()
+				c.Count("odd_lifecycle_connections", 1)
+			}
+			nodd := rng.Intn(4)
+			for k := 0; k < nodd; k++ {
+				odd(rng.Intn(4))
+			}
+			for k := rng.Intn(3); k > 0; k-- {
+				kk := rng.Intn(4)
+				wg.Add(1)
+				go func() { defer wg.Done(); odd(kk) }()
+			}
 			for i := range sessions {
 				seed := rng.U64()
 				wg.Add(1)
